@@ -1,0 +1,19 @@
+//go:build verif
+
+package nfsv4
+
+// Contracts for the govc verifier (/verif). This file contains comments only;
+// it does not change the compiled package.
+
+//@ func (*nfs40Program).enter
+//@   props C14
+//@   lockeffect p.lock +1
+//@ func (*nfs40Program).leave
+//@   props C14
+//@   lockeffect p.lock -1
+//@ func (*nfs41Program).enter
+//@   props C14
+//@   lockeffect p.clientsLock +1
+//@ func (*nfs41Program).leave
+//@   props C14
+//@   lockeffect p.clientsLock -1
